@@ -3,11 +3,12 @@ from __future__ import annotations
 
 import ast
 
-from sa import source
-from sa.cfg import cfg_of, guards, facts, holds
+from sa import pat, source, tables
+from sa.cfg import cfg_of, conjuncts, guards, facts, holds
+from sa.classes import is_logging_stmt
 from sa.minieval import CannotEval, ev
 from sa.source import AnchorMissing, arg_of, dotted, is_self_attr, last_attr, local_defs, params_of, short, u, walk_body
-from sa.sym import atoms_of, comparison
+from sa.sym import UnknownAtom, oriented
 
 _N = "esrally/utils/net.py"
 _I = "esrally/utils/io.py"
@@ -16,6 +17,142 @@ _L = "esrally/track/loader.py"
 
 def raises_on_all_paths(g, starts):
     return bool(starts) and all(g.exit.id not in g.reachable([s]) for s in starts)
+
+
+def method(mod, cls, name):
+    """the method `name` of class `cls` (AnchorMissing, not AttributeError, when it is gone)."""
+    m = mod.methods(cls).get(name)
+    if m is None:
+        raise AnchorMissing(f"{mod.relpath}: method {cls.name}.{name} not found")
+    return m
+
+
+def params(f, n):
+    """positional parameter names of f; AnchorMissing unless there are at least n."""
+    ps = params_of(f)
+    if len(ps) < n:
+        raise AnchorMissing(f"{getattr(f, 'name', '?')}: expected at least {n} positional parameters, found {ps}")
+    return ps
+
+
+def eval_with(test, vals):
+    """value of the extracted expression `test` when every sub-expression whose text is a key of `vals` has the given representative value (minieval; raises CannotEval for anything else)."""
+
+    class S(ast.NodeTransformer):
+        def visit(self, n):
+            if isinstance(n, ast.expr) and u(n) in vals:
+                return ast.Constant(value=vals[u(n)])
+            return self.generic_visit(n)
+
+    return ev(S().visit(source.clone(test)), {})
+
+
+def compared_with(test, name):
+    """role 'the measured value': the operand compared (==, !=, <, >, <=, >=; either orientation) with the name `name` inside `test`; None unless there is exactly one such operand."""
+    out = {}
+    for x in ast.walk(test):
+        if isinstance(x, ast.Compare) and len(x.ops) == 1 and isinstance(x.ops[0], (ast.Eq, ast.NotEq, ast.Lt, ast.Gt, ast.LtE, ast.GtE)):
+            l, r = x.left, x.comparators[0]
+            if u(l) == name and u(r) != name:
+                out[u(r)] = r
+            elif u(r) == name and u(l) != name:
+                out[u(l)] = l
+    return list(out.values())[0] if len(out) == 1 else None
+
+
+# (declared / expected value, measured value, is a mismatch): an undeclared (None) expectation is never a mismatch, a declared one — 0 included — is one iff the values differ (either direction)
+_MISMATCH = [(None, 7, False), (None, 0, False), (7, 7, False), (0, 0, False), (7, 6, True), (6, 7, True), (0, 6, True), (6, 0, True)]
+
+
+def mismatch_table(test, optional, other, pol=True):
+    """(ok, detail): the expression `test` (its negation when pol is False) is true exactly for the mismatch cases of _MISMATCH, evaluated on those representative values."""
+    wrong = []
+    for e, m, want in _MISMATCH:
+        try:
+            got = bool(eval_with(test, {optional: e, other: m}))
+        except CannotEval as x:
+            return False, f"cannot evaluate `{u(test)}`: {x}"
+        if got != (want if pol else not want):
+            wrong.append(f"{optional}={e!r} vs {m!r}: {'treated as a mismatch' if got == pol else 'accepted'}")
+    return not wrong, "; ".join(wrong)
+
+
+_JUMPS = (ast.Raise, ast.Return, ast.Break, ast.Continue)
+
+
+def outcome(stmt, vals):
+    """How the compound statement `stmt` (an `if`; nested ifs, either arm order, split conjunctions all allowed) ends when the sub-expressions named in `vals` have the given representative
+    values: tables.decide with every test that matters evaluated by minieval; statements without a raise / return / break / continue inside cannot change the outcome and are skipped.
+    CannotEval when the shape or a test is beyond the evaluator (the caller then does not discharge the obligation)."""
+
+    def atom(n, env):
+        return bool(eval_with(n, vals))
+
+    def on_stmt(s_, env, b):
+        return None if any(isinstance(x, _JUMPS) for x in ast.walk(s_)) else "skip"
+
+    try:
+        return tables.decide([stmt], atom, {}, on_stmt=on_stmt)
+    except (tables.Unsupported, UnknownAtom) as e:
+        raise CannotEval(str(e))
+
+
+def mismatch_outcomes(stmt, optional, other):
+    """(ok, detail, results): `stmt` ends in a raise exactly for the mismatch cases of _MISMATCH (`optional` = the value that may be None = nothing to compare with, `other` = the value it
+    is compared with). results maps (optional value, other value) -> tables.Outcome."""
+    wrong, res = [], {}
+    for e, m, want in _MISMATCH:
+        try:
+            res[(e, m)] = o = outcome(stmt, {optional: e, other: m})
+        except CannotEval as x:
+            return False, f"cannot evaluate the test(s) at line {getattr(stmt, 'lineno', '?')}: {x}", {}
+        if (o.kind == "raise") != want:
+            wrong.append(f"{optional}={e!r} vs {m!r}: {'raises' if o.kind == 'raise' else 'accepted'}")
+    return not wrong, "; ".join(wrong), res
+
+
+def comparing_if(ifs, name):
+    """(outermost if, operand compared with `name`): the first `if` of `ifs` that — in its own test or in the test of an if nested in it — compares the name `name` with another value."""
+    for n in ifs:
+        for x in ast.walk(n):
+            if isinstance(x, ast.If):
+                m = compared_with(x.test, name)
+                if m is not None:
+                    return n, m
+    return None, None
+
+
+def block_of(stmt):
+    """the statement list that contains stmt."""
+    p_ = source.parent(stmt)
+    for f_ in ("body", "orelse", "finalbody"):
+        b = getattr(p_, f_, None)
+        if isinstance(b, list) and any(x is stmt for x in b):
+            return b
+    return [stmt]
+
+
+def before_in_block(stmt):
+    b = block_of(stmt)
+    return b[: [i for i, x in enumerate(b) if x is stmt][0]]
+
+
+def returned(r):
+    """the expression a `return` yields, looking through a temporary bound by the statement just before it (`tmp = E; return tmp`)."""
+    v = r.value
+    prev = before_in_block(r)
+    if isinstance(v, ast.Name) and prev and isinstance(prev[-1], ast.Assign) and len(prev[-1].targets) == 1 and isinstance(prev[-1].targets[0], ast.Name) and prev[-1].targets[0].id == v.id:
+        return prev[-1].value
+    return v
+
+
+def same_value(a, b, defs):
+    """two expressions denote the same value once single-assignment locals are inlined."""
+    return a is not None and b is not None and source.inline(a, defs) == source.inline(b, defs)
+
+
+def expr(text):
+    return ast.parse(text, mode="eval").body
 
 
 def offset_table_protocol(chk, io_mod, rid):
@@ -44,8 +181,11 @@ def offset_table_protocol(chk, io_mod, rid):
     ok = bool(inc) and g.dominated_by_nodes(g.node_of(a), [g.node_of(inc[0])]) and not g.path_exists(g.node_of(a), g.node_of(inc[0]), avoid=[g.node_of(loop)] if loop is not None else [])
     chk.ob(rid, "offset recorded after the counter was advanced for that line", ok, a, "")
     # end-of-file test: empty read breaks before counting
-    brk = [n for n in walk_body(pf) if isinstance(n, ast.Break)]
-    ok = bool(brk) and bool(inc) and bool(rl) and any(pol and u(t) in ("len(line) == 0", "not line", "line == ''") for t, pol in guards(brk[0], stop=loop)) and not g.path_exists(g.node_of(inc[0]), g.node_of(brk[0]), avoid=[g.node_of(loop)])
+    # role: the local that receives the line read (target of the assignment from readline())
+    lv = [n.targets[0].id for n in walk_body(pf) if isinstance(n, ast.Assign) and rl and n.value is rl[0] and len(n.targets) == 1 and isinstance(n.targets[0], ast.Name)]
+    brk = [n for n in walk_body(pf) if isinstance(n, ast.Break) and source.enclosing(n, (ast.While, ast.For)) is loop] if loop is not None else []
+    ok = bool(brk) and bool(inc) and bool(rl) and bool(lv) and pat.guarded(brk[0], "len(V_l) == 0", "not V_l", "V_l == ''", "len(V_l) < 1", stop=loop, binds={"l": lv[0]}) is not None \
+        and not g.path_exists(g.node_of(inc[0]), g.node_of(brk[0]), avoid=[g.node_of(loop)])
     chk.ob(rid, "an empty read ends the scan before it is counted", ok, brk[0] if brk else pf, "")
     rets = [n for n in walk_body(pf) if isinstance(n, ast.Return)]
     ok = any(u(r.value) == cnt for r in rets) and any(isinstance(r.value, ast.Constant) and r.value.value is None for r in rets)
@@ -55,21 +195,31 @@ def offset_table_protocol(chk, io_mod, rid):
     chk.ob(rid, "data file opened with a fixed encoding", ok, op[0] if op else pf, "")
     FT = io_mod.cls("FileOffsetTable")
     fm = io_mod.methods(FT)
-    ao = fm.get("add_offset")
-    fc = fm.get("find_closest_offset")
-    wfmt = [n for n in walk_body(ao) if isinstance(n, ast.JoinedStr)] if ao else []
+    ao = method(io_mod, FT, "add_offset")
+    fc = method(io_mod, FT, "find_closest_offset")
+    params(ao, 3), params(fc, 2)
+    wfmt = [n for n in walk_body(ao) if isinstance(n, ast.JoinedStr)]
     wf = None
     if wfmt:
         parts = wfmt[0].values
-        if len(parts) == 3 and isinstance(parts[1], ast.Constant):
+        if len(parts) == 3 and isinstance(parts[1], ast.Constant) and isinstance(parts[0], ast.FormattedValue) and isinstance(parts[2], ast.FormattedValue):
             wf = (u(parts[0].value), parts[1].value, u(parts[2].value))
-    rd = [n for n in walk_body(fc) if isinstance(n, ast.Assign) and isinstance(n.targets[0], ast.Tuple) and any(isinstance(x, ast.Call) and last_attr(x.func) == "split" for x in ast.walk(n.value))] if fc else []
+    rd = [n for n in walk_body(fc) if isinstance(n, ast.Assign) and isinstance(n.targets[0], ast.Tuple) and any(isinstance(x, ast.Call) and last_attr(x.func) == "split" for x in ast.walk(n.value))]
     ok = False
+    rr = [n for n in walk_body(fc) if isinstance(n, ast.Return)]
+    if rd and not (len(rd[0].targets[0].elts) == 2 and all(isinstance(t, ast.Name) for t in rd[0].targets[0].elts)):
+        raise AnchorMissing("find_closest_offset: the parsed table entry is not unpacked into two names")
     if wf and rd:
         sp = [x for x in ast.walk(rd[0].value) if isinstance(x, ast.Call) and last_attr(x.func) == "split"][0]
         ln, off = [t.id for t in rd[0].targets[0].elts]
         ap = params_of(ao)
-        ok = source.is_const(sp.args[0], wf[1]) and wf[0] == ap[1] and wf[2] == ap[2] and "line" in ln and "offset" in off
+        # roles of the two parsed fields, by use: the line number is the one compared with the target line, the offset the one that flows into the first element of the returned pair
+        floop_ = source.enclosing(rd[0], ast.For)
+        tgt_ = params_of(fc)[1]
+        is_line = floop_ is not None and any(isinstance(x, ast.Compare) and len(x.ops) == 1 and {u(x.left), u(x.comparators[0])} == {ln, tgt_} for x in ast.walk(floop_))
+        ret0 = u(returned(rr[0]).elts[0]) if rr and isinstance(returned(rr[0]), ast.Tuple) and returned(rr[0]).elts else None
+        is_off = floop_ is not None and ret0 is not None and any(isinstance(x, ast.Assign) and u(x.targets[0]) == ret0 and u(x.value) == off for x in ast.walk(floop_))
+        ok = bool(sp.args) and source.is_const(sp.args[0], wf[1]) and len(ap) == 3 and wf[0] == ap[1] and wf[2] == ap[2] and is_line and is_off
     chk.ob(rid, "writer format and reader parse agree (separator, field order)", ok, rd[0] if rd else FT, f"writer {wf}")
     ok = False
     if rd:
@@ -82,17 +232,19 @@ def offset_table_protocol(chk, io_mod, rid):
         ok = bool(stores) and bool(brks) and all(holds(s_, f"{ln} <= {tgt}", stop=floop) for s_ in stores) and all(holds(b_, f"{ln} > {tgt}", stop=floop) for b_ in brks) \
             and off in vals and f"{tgt} - {ln}" in vals
     chk.ob(rid, "reader: largest L <= target, remaining = target - L, stops at the first larger entry", ok, fc if fc else FT, "")
-    rr = [n for n in walk_body(fc) if isinstance(n, ast.Return)] if fc else []
     inits = {u(n.targets[0]): n.value for n in walk_body(fc) if isinstance(n, ast.Assign) and isinstance(n.targets[0], ast.Name) and source.enclosing(n, ast.For) is None} if fc else {}
-    ok = bool(rr) and isinstance(rr[0].value, ast.Tuple) and len(rr[0].value.elts) == 2 and source.is_const(inits.get(u(rr[0].value.elts[0])), 0) and u(inits.get(u(rr[0].value.elts[1]))) == params_of(fc)[1]
+    rt_ = returned(rr[0]) if rr else None
+    ok = bool(rr) and isinstance(rt_, ast.Tuple) and len(rt_.elts) == 2 and source.is_const(inits.get(u(rt_.elts[0])), 0) and u(inits.get(u(rt_.elts[1]))) == params_of(fc)[1]
     chk.ob(rid, "reader defaults: offset 0 and all lines remaining", ok, rr[0] if rr else FT, "")
     sk = io_mod.func("skip_lines")
+    params(sk, 3)
     gs_ = cfg_of(sk)
     seek = [n for n in walk_body(sk) if isinstance(n, ast.Call) and last_attr(n.func) == "seek"]
     rls = [n for n in walk_body(sk) if isinstance(n, ast.Call) and last_attr(n.func) == "readline"]
     un = [n for n in walk_body(sk) if isinstance(n, ast.Assign) and isinstance(n.targets[0], ast.Tuple) and isinstance(n.value, ast.Call) and last_attr(n.value.func) == "find_closest_offset"]
     ok = False
-    if seek and rls and un:
+    if seek and rls and un and seek[0].args and un[0].value.args and len(un[0].targets[0].elts) == 2 and all(isinstance(t, ast.Name) for t in un[0].targets[0].elts) \
+            and isinstance(seek[0].func, ast.Attribute) and isinstance(rls[0].func, ast.Attribute):
         offv, remv = [t.id for t in un[0].targets[0].elts]
         lp = source.enclosing(rls[0], ast.For)
         ok = u(seek[0].args[0]) == offv and lp is not None and u(lp.iter) == f"range({remv})" and gs_.dominated_by_nodes(gs_.node_of(rls[0]), [gs_.node_of(seek[0])]) and u(un[0].value.args[0]) == params_of(sk)[2] \
@@ -101,7 +253,6 @@ def offset_table_protocol(chk, io_mod, rid):
     fb = [n for n in walk_body(sk) if isinstance(n, ast.Assign) and isinstance(n.targets[0], ast.Name) and u(n.value) == params_of(sk)[2]]
     chk.ob(rid, "without a table all lines are skipped one by one from offset 0", bool(fb), sk, "")
     # freshness: a table is used only when it exists and is at least as new as the data file; the scan is skipped only for such a table
-    from sa import pat
     iv = fm.get("is_valid")
     ent = fm.get("__enter__")
     finit = fm.get("__init__")
@@ -111,7 +262,7 @@ def offset_table_protocol(chk, io_mod, rid):
             if isinstance(n, ast.Call) and dotted(n.func) == "open" and n.args and is_self_attr(n.args[0]):
                 T = n.args[0].attr
     if finit is not None:
-        first = params_of(finit)[1]
+        first = params(finit, 2)[1]
         for n in walk_body(finit):
             if isinstance(n, ast.Assign) and is_self_attr(n.targets[0]) and u(n.value) == first:
                 D = n.targets[0].attr
@@ -120,17 +271,45 @@ def offset_table_protocol(chk, io_mod, rid):
     if iv is not None and T and D and T != D:
         rv = [n for n in walk_body(iv) if isinstance(n, ast.Return)]
         if len(rv) == 1:
-            from sa.cfg import conjuncts
-            cj = conjuncts(rv[0].value)
+            cj = conjuncts(returned(rv[0]))
             has_exists = any(isinstance(c, ast.Call) and u(c.func) == "self.exists" for c in cj)
             fresh = any(pat.is_(c, f"os.path.getmtime(self.{T}) >= os.path.getmtime(self.{D})", f"os.path.getmtime(self.{T}) > os.path.getmtime(self.{D})") for c in cj)
             ok = has_exists and fresh and len(cj) == 2
-            detail = u(rv[0].value)
+            detail = u(returned(rv[0]))
     chk.ob(rid, "table valid iff it exists and its mtime >= the data file's mtime", ok, iv if iv is not None else FT, detail, key=f"{io_mod.relpath}:FileOffsetTable.is_valid:freshness")
     ivc = [n for n in walk_body(pf) if isinstance(n, ast.Call) and last_attr(n.func) == "is_valid"]
     ok = len(ivc) == 1 and loop is not None and any(f_ is not None for f_ in [pat.guarded(loop, "not E_t.is_valid()")]) and bool(rets) \
         and all(pat.guarded(r, "not E_t.is_valid()") is None for r in rets if isinstance(r.value, ast.Constant) and r.value.value is None)
     chk.ob(rid, "the scan runs iff the table is not valid; None is returned only for a valid table", ok, ivc[0] if ivc else pf, "", key=f"{io_mod.relpath}:prepare_file_offset_table:rebuild-guard")
+
+
+def size_verification(f, g, ifs, path, exp):
+    """(if node or None, ok, detail) — among `ifs`, the (outermost) one that compares the declared-size parameter `exp` with another value (role: the measured size). ok iff that value is
+    os.path.getsize(<path parameter>) (directly or through single-assignment locals) and the statement, evaluated on representative (declared, measured) pairs, ends in a raise exactly
+    for a mismatch (None = undeclared is never one, a declared 0 is honoured) — whichever arm / nesting the raise sits in."""
+    S, meas = comparing_if(ifs, exp)
+    if S is None:
+        return None, False, f"no test compares `{exp}` with the size on disk"
+    ok, detail, res = mismatch_outcomes(S, exp, u(meas))
+    if not same_value(meas, expr(f"os.path.getsize({path})"), local_defs(f)):
+        ok, detail = False, f"`{u(meas)}` is not os.path.getsize({path})"
+    if ok and not all(raises_on_all_paths(g, [g.node_of(o.node)]) for o in res.values() if o.kind == "raise"):
+        ok, detail = False, "the raise for a mismatch is caught inside the function"
+    return S, ok, detail
+
+
+def path_roles(f):
+    """(document-file local, archive local, document-set parameter) of a prepare method, by definition: the single-assignment locals computed from <document_set>.document_file / .document_archive."""
+    ds = params(f, 2)[1]
+    defs = local_defs(f)
+
+    def one(attr):
+        ks = [k for k, v in defs.items() if any(isinstance(x, ast.Attribute) and x.attr == attr and u(x.value) == ds for x in ast.walk(v))]
+        if len(ks) != 1:
+            raise AnchorMissing(f"local computed from {ds}.{attr} in {f.name}")
+        return ks[0]
+
+    return one("document_file"), one("document_archive"), ds
 
 
 def run(chk):
@@ -150,7 +329,7 @@ def run(chk):
              "whose mismatch edge removes tmp and raises; the broad handler around the transfer removes tmp and re-raises", 6,
              "an interrupted or short download leaves a partial file under the final name, which the next run accepts when no size is declared")
     dl = net.func("download")
-    dp = params_of(dl)
+    dp = params(dl, 3)
     final = dp[1]
     g = cfg_of(dl)
     ddefs = local_defs(dl)
@@ -167,19 +346,21 @@ def run(chk):
     ren = [n for n in walk_body(dl) if isinstance(n, ast.Call) and dotted(n.func) in ("os.rename", "os.replace", "shutil.move")]
     ok = len(ren) == 1 and [u(a) for a in ren[0].args] == [tmp, final]
     chk.ob("O14.1", "single rename(tmp, final)", ok, ren[0] if ren else dl, f"{len(ren)} rename(s)")
-    sizes = [n for n in walk_body(dl) if isinstance(n, ast.If) and any(comparison(a) is not None and comparison(a)[1] == "!=" for a in atoms_of(n.test)) and "size" in u(n.test)]
+    # the size check: the (outermost) `if` that compares the expected-size parameter with another value (role: the measured size, which must be getsize(tmp)); what it does for a
+    # mismatch / a match is evaluated (tables.decide over representative values), so arm order, nesting and operand order do not matter
+    exp = dp[2]
+    S, meas = comparing_if([n for n in walk_body(dl) if isinstance(n, ast.If)], exp)
     ok = False
-    if ren and sizes:
-        S = sizes[0]
-        sn = g.node_of(S)
-        ok = g.dominated_by_nodes(g.node_of(ren[0]), [sn]) and raises_on_all_paths(g, g.edge_targets(sn, "true")) and any(isinstance(x, ast.Call) and dotted(x.func) == "os.remove" and u(x.args[0]) == tmp for s in S.body for x in ast.walk(s))
-        sz = ddefs.get("download_size")
-        ok = ok and sz is not None and u(sz) == f"os.path.getsize({tmp})"
-    chk.ob("O14.1", "rename only behind the size check; mismatch removes tmp and raises", ok, sizes[0] if sizes else dl, "")
-    if sizes:
+    okt, detail, res = (False, "", {}) if S is None else mismatch_outcomes(S, exp, u(meas))
+    if ren and S is not None and res:
+        bad_, good_ = res[(7, 6)], res[(7, 7)]
+        ok = bad_.kind == "raise" and good_.kind != "raise" and raises_on_all_paths(g, [g.node_of(bad_.node)]) and g.dominated_by_nodes(g.node_of(ren[0]), [g.node_of(S)]) \
+            and any(isinstance(x, ast.Call) and dotted(x.func) == "os.remove" and x.args and u(x.args[0]) == tmp for s in before_in_block(bad_.node) for x in ast.walk(s))
+        ok = ok and same_value(meas, expr(f"os.path.getsize({tmp})"), ddefs)
+    chk.ob("O14.1", "rename only behind the size check; mismatch removes tmp and raises", ok, S if S is not None else dl, "")
+    if S is not None:
         # the check compares with the expected size whenever one is known
-        ats = [u(a) for a in atoms_of(sizes[0].test)]
-        chk.ob("O14.1", "size compared whenever an expected size is known", any("is not None" in a for a in ats) and len(ats) == 2, sizes[0], f"{ats}")
+        chk.ob("O14.1", "size compared whenever an expected size is known", okt, S, detail)
     trys = [n for n in walk_body(dl) if isinstance(n, ast.Try) and any(w in list(ast.walk(n)) for w in writers)]
     ok = False
     if trys:
@@ -194,7 +375,6 @@ def run(chk):
     opens_final = [n for n in walk_body(dl) if isinstance(n, ast.Call) and dotted(n.func) == "open" and u(n.args[0]) == final]
     chk.ob("O14.1", "the final name is never opened for writing here", not opens_final, opens_final[0] if opens_final else dl, "")
     # the size the download is verified against is the DECLARED one; the transfer's own Content-Length may stand in only when nothing was declared
-    from sa import pat
     dh = net.func("_download_http")
     ep = [p_ for p_ in params_of(dh) if "size" in p_]
     if not ep:
@@ -223,47 +403,58 @@ def run(chk):
     chk.ob("O14.2", "retry constant is a positive integer", isinstance(const, ast.Constant) and isinstance(const.value, int) and const.value > 0, const if const is not None else net.tree, "")
     T = [n for n in L.body if isinstance(n, ast.Try)]
     ok = False
+    if T and not T[0].handlers:
+        raise AnchorMissing("except clause of the retry loop in download_http")
     if T:
         t = T[0]
-        ok = len(t.body) == 1 and isinstance(t.body[0], ast.Return) and isinstance(t.body[0].value, ast.Call) and last_attr(t.body[0].value.func) == "_download_http"
-        chk.ob("O14.2", "attempt returns the transfer's result", ok, t.body[0], "")
-        names = sorted(last_attr(e) for h in t.handlers for e in (h.type.elts if isinstance(h.type, ast.Tuple) else [h.type]))
+        tb = [x for x in t.body if not is_logging_stmt(x)] or t.body
+        # the attempt is `return _download_http(...)` (possibly through a temporary bound just before the return) and nothing else
+        tcall = returned(tb[-1]) if isinstance(tb[-1], ast.Return) and len(tb) == (1 if returned(tb[-1]) is tb[-1].value else 2) else None
+        ok = isinstance(tcall, ast.Call) and last_attr(tcall.func) == "_download_http"
+        chk.ob("O14.2", "attempt returns the transfer's result", ok, tb[0], "")
+        names = sorted(last_attr(e) or "<any>" for h in t.handlers for e in (h.type.elts if isinstance(h.type, ast.Tuple) else [h.type]))
         chk.ob("O14.2", "retry only for ProtocolError / ReadTimeoutError", names == ["ProtocolError", "ReadTimeoutError"], t, f"{names}")
         h = t.handlers[0]
+        if not isinstance(L.target, ast.Name):
+            raise AnchorMissing("retry loop variable in download_http")
         iv = L.target.id
-        lastif = [n for n in h.body if isinstance(n, ast.If) and u(n.test) in (f"{iv} == HTTP_DOWNLOAD_RETRIES", f"HTTP_DOWNLOAD_RETRIES == {iv}", f"{iv} >= HTTP_DOWNLOAD_RETRIES")]
-        ok = bool(lastif) and isinstance(lastif[0].body[0], ast.Raise) and lastif[0].body[0].exc is None and h.body.index(lastif[0]) == 0
-        chk.ob("O14.2", "re-raise on the last index (before anything else)", ok, h, "")
-        a0 = t.body[0].value.args if isinstance(t.body[0], ast.Return) and isinstance(t.body[0].value, ast.Call) else []
+        # the first statement of the handler (logging aside) is an `if` whose test, evaluated for every index of the loop, is true exactly at the last one, and whose true arm re-raises at once
+        hb = [x for x in h.body if not is_logging_stmt(x)]
+        ok = False
+        detail = ""
+        if hb and isinstance(hb[0], ast.If) and isinstance(const, ast.Constant) and isinstance(const.value, int) and not isinstance(const.value, bool) and 0 < const.value < 1000:
+            N = const.value
+            try:
+                tv = [bool(eval_with(hb[0].test, {iv: k, "HTTP_DOWNLOAD_RETRIES": N})) for k in range(N + 1)]
+                arm = [x for x in hb[0].body if not is_logging_stmt(x)]
+                ok = tv == [k == N for k in range(N + 1)] and bool(arm) and isinstance(arm[0], ast.Raise) and arm[0].exc is None
+                detail = "" if ok else f"`{u(hb[0].test)}` over {iv} = 0..{N}: {tv}"
+            except CannotEval as e:
+                detail = f"cannot evaluate `{u(hb[0].test)}`: {e}"
+        chk.ob("O14.2", "re-raise on the last index (before anything else)", ok, h, detail)
+        a0 = tcall.args if isinstance(tcall, ast.Call) else []
         ok = [u(a) for a in a0[:3]] == params_of(dh)[:3]
-        chk.ob("O14.2", "the same url / path / expected size are used on every attempt", ok, t.body[0], "")
+        chk.ob("O14.2", "the same url / path / expected size are used on every attempt", ok, tb[0], "")
     dhh = net.func("_download_http")
     st = [n for n in walk_body(dhh) if isinstance(n, ast.If) and ".status" in u(n.test)]
     if not st:
         raise AnchorMissing("status test in _download_http")
     gd = cfg_of(dhh)
+    # what the status statement does is evaluated for every status of the domain with <response>.status := status (tables.decide: nested tests / either arm order allowed)
+    skey = [u(x) for x in ast.walk(st[0].test) if isinstance(x, ast.Attribute) and x.attr == "status"][0]
+    reached = {}
     for status in (200, 204, 299, 300, 304, 399, 400, 404, 500):
-        class R:  # noqa
-            pass
-
         try:
-            # evaluate the extracted test with r.status := status
-            test = st[0].test
-            rname = [x.value.id for x in ast.walk(test) if isinstance(x, ast.Attribute) and x.attr == "status" and isinstance(x.value, ast.Name)][0]
-
-            class Sub(ast.NodeTransformer):
-                def visit_Attribute(self, n):
-                    if n.attr == "status" and isinstance(n.value, ast.Name) and n.value.id == rname:
-                        return ast.Constant(value=status)
-                    return n
-
-            val = ev(Sub().visit(source.clone(test)), {})
-        except (CannotEval, IndexError) as e:
+            o = outcome(st[0], {skey: status})
+        except CannotEval as e:
             chk.unknown("O14.2", f"status test cannot be evaluated over the status domain: {e}", st[0])
             break
         want = status > 299
-        chk.ob("O14.2", f"HTTP {status} {'raises' if want else 'is accepted'}", bool(val) == want, st[0], f"`{u(test)}` -> {bool(val)}", key=f"{_N}:_download_http:status:{status}")
-    ok = raises_on_all_paths(gd, gd.edge_targets(gd.node_of(st[0]), "true")) and any(isinstance(x, ast.Raise) and "HTTPError" in u(x.exc) for x in ast.walk(st[0]))
+        rejected = o.kind == "raise" and raises_on_all_paths(gd, [gd.node_of(o.node)])
+        if rejected:
+            reached[status] = o.node
+        chk.ob("O14.2", f"HTTP {status} {'raises' if want else 'is accepted'}", rejected == want, st[0], f"`{u(st[0].test)}` -> {o.text()[:60]}", key=f"{_N}:_download_http:status:{status}")
+    ok = bool(reached) and all(r_.exc is not None and "HTTPError" in u(r_.exc) for r_ in reached.values())
     chk.ob("O14.2", "a rejected status raises HTTPError before any byte is written", ok and not any(isinstance(x, ast.Call) and last_attr(x.func) == "write" and x.lineno < st[0].lineno for x in walk_body(dhh)), st[0], "")
     rq = [n for n in ast.walk(dhh) if isinstance(n, ast.Call) and last_attr(n.func) == "_request"]
     ecl = arg_of(rq[0], None, "enforce_content_length") if rq else None
@@ -274,12 +465,12 @@ def run(chk):
              "tests after decompression, both raising; base-url / offline guards raise before any transfer", 9,
              "a short/absent file is taken as the corpus")
     D = ldr.cls("Downloader")
-    dd = ldr.methods(D).get("download")
+    dd = method(ldr, D, "download")
     gdd = cfg_of(dd)
     nd = [n for n in walk_body(dd) if isinstance(n, ast.Call) and dotted(n.func) == "net.download"]
     if not nd:
         raise AnchorMissing("net.download call in Downloader.download")
-    ddp = params_of(dd)
+    ddp = params(dd, 4)
     ok = [u(a) for a in nd[0].args[1:3]] == [ddp[2], ddp[3]]
     chk.ob("O14.3", "transfer called with the target path and the declared size", ok, nd[0], short(nd[0], 90))
     tr = source.enclosing(nd[0], ast.Try)
@@ -289,32 +480,28 @@ def run(chk):
             ok = bool(hn) and all(gdd.exit.id not in gdd.reachable([x]) for x in hn) and any(isinstance(x, ast.Raise) and x.exc is not None and "DataError" in u(x.exc) for x in ast.walk(h))
             chk.ob("O14.3", f"`except {u(h.type)}` converts to a data error on every path", ok, h, "")
     post = [n for n in dd.body if isinstance(n, ast.If) and n.lineno > nd[0].lineno]
-    ex = [n for n in post if u(n.test) in (f"not os.path.isfile({ddp[2]})", f"not os.path.exists({ddp[2]})")]
+    ex = [n for n in post if pat.is_(n.test, f"not os.path.isfile({ddp[2]})", f"not os.path.exists({ddp[2]})")]
     ok = bool(ex) and raises_on_all_paths(gdd, gdd.edge_targets(gdd.node_of(ex[0]), "true"))
     chk.ob("O14.3", "downloader: missing file after the transfer raises", ok, ex[0] if ex else dd, "")
-    sz = [n for n in post if "!=" in u(n.test) and "size" in u(n.test)]
-    ok = bool(sz) and raises_on_all_paths(gdd, gdd.edge_targets(gdd.node_of(sz[0]), "true")) and f"{ddp[3]} is not None" in [u(a) for a in atoms_of(sz[0].test)]
-    sdef = local_defs(dd).get("actual_size")
-    ok = ok and sdef is not None and u(sdef) == f"os.path.getsize({ddp[2]})"
-    chk.ob("O14.3", "downloader: size mismatch after the transfer raises", ok, sz[0] if sz else dd, "")
-    pre = [n for n in dd.body if isinstance(n, ast.If) and n.lineno < nd[0].lineno and any(isinstance(x, ast.Raise) for x in n.body)]
-    tests = {u(n.test) for n in pre}
-    ok = f"not {ddp[1]}" in tests and "self.offline" in tests
+    S, ok, detail = size_verification(dd, gdd, post, ddp[2], ddp[3])
+    chk.ob("O14.3", "downloader: size mismatch after the transfer raises", ok, S if S is not None else dd, detail)
+    # a raise that is reached exactly when the base URL is empty / offline mode is on, before the transfer (guard facts: polarity- and arm-insensitive)
+    pre = [x for n in dd.body if isinstance(n, ast.If) and n.lineno < nd[0].lineno for x in ast.walk(n) if isinstance(x, ast.Raise)]
+    tests = {u(f_) for x in pre for f_ in pat.fact_nodes(x)}
+    ok = any(pat.fact_nodes(x) and all(pat.is_(f_, f"not {ddp[1]}") for f_ in pat.fact_nodes(x)) and raises_on_all_paths(gdd, [gdd.node_of(x)]) for x in pre) \
+        and any(pat.fact_nodes(x) and all(pat.is_(f_, "self.offline") for f_ in pat.fact_nodes(x)) and raises_on_all_paths(gdd, [gdd.node_of(x)]) for x in pre)
     chk.ob("O14.3", "no base URL / offline mode raise before any transfer", ok, pre[0] if pre else dd, f"{sorted(tests)}")
     DC = ldr.cls("Decompressor")
-    dc = ldr.methods(DC).get("decompress")
+    dc = method(ldr, DC, "decompress")
     gdc = cfg_of(dc)
-    dcp = params_of(dc)
+    dcp = params(dc, 4)
     idc = [n for n in walk_body(dc) if isinstance(n, ast.Call) and dotted(n.func) == "io.decompress"]
     post = [n for n in dc.body if isinstance(n, ast.If) and idc and n.lineno > idc[0].lineno]
-    ex = [n for n in post if u(n.test) == f"not os.path.isfile({dcp[2]})"]
+    ex = [n for n in post if pat.is_(n.test, f"not os.path.isfile({dcp[2]})")]
     ok = bool(ex) and raises_on_all_paths(gdc, gdc.edge_targets(gdc.node_of(ex[0]), "true"))
     chk.ob("O14.3", "decompressor: missing document file raises", ok, ex[0] if ex else dc, "")
-    sz = [n for n in post if "!=" in u(n.test)]
-    ok = bool(sz) and raises_on_all_paths(gdc, gdc.edge_targets(gdc.node_of(sz[0]), "true")) and f"{dcp[3]} is not None" in [u(a) for a in atoms_of(sz[0].test)]
-    sdef = local_defs(dc).get("extracted_bytes")
-    ok = ok and sdef is not None and u(sdef) == f"os.path.getsize({dcp[2]})"
-    chk.ob("O14.3", "decompressor: size mismatch raises", ok, sz[0] if sz else dc, "")
+    S, ok, detail = size_verification(dc, gdc, post, dcp[2], dcp[3])
+    chk.ob("O14.3", "decompressor: size mismatch raises", ok, S if S is not None else dc, detail)
     ok = bool(idc) and u(idc[0].args[0]) == dcp[1]
     chk.ob("O14.3", "decompressor works on the given archive", ok, idc[0] if idc else dc, "")
 
@@ -324,81 +511,105 @@ def run(chk):
              "a wrong-sized / partial / empty document file is accepted; readers use a stale offset table")
     P = ldr.cls("DocumentSetPreparator")
     pm = ldr.methods(P)
-    pds = pm.get("prepare_document_set")
+    pds = method(ldr, P, "prepare_document_set")
     gp = cfg_of(pds)
     wl = [n for n in walk_body(pds) if isinstance(n, ast.While)]
     if not wl:
         raise AnchorMissing("state loop in prepare_document_set")
     WL = wl[0]
-    brks = [n for n in ast.walk(WL) if isinstance(n, ast.Break)]
+    docv, archv, dsv = path_roles(pds)
+    brks = [n for n in ast.walk(WL) if isinstance(n, ast.Break) and source.enclosing(n, (ast.While, ast.For)) is WL]
     ok = len(brks) == 1
     if ok:
-        gs = guards(brks[0], stop=WL)
-        ats = [u(a) for t, pol in gs if pol for a in atoms_of(t)]
-        ok = len(gs) == 1 and gs[0][1] and "self.is_locally_available(doc_path)" in ats and any(a.startswith("self.has_expected_size(doc_path, ") and "uncompressed_size_in_bytes" in a for a in ats) and len(ats) == 2 \
-            and isinstance(gs[0][0], ast.BoolOp) and isinstance(gs[0][0].op, ast.And)
+        # the facts that hold at the break (guard facts: arm / polarity / operand order do not matter) are exactly: present, and of the expected (uncompressed) size
+        fs = pat.fact_nodes(brks[0], stop=WL)
+        szf = [b_ for b_ in (pat.match(f_, f"self.has_expected_size({docv}, E_s)") for f_ in fs) if b_ is not None]
+        ok = len(fs) == 2 and any(pat.is_(f_, f"self.is_locally_available({docv})") for f_ in fs) and len(szf) == 1 and "uncompressed_size_in_bytes" in szf[0]["s"]
     chk.ob("O14.4", "loop exits only when the document file is present and has the expected size", ok, brks[0] if brks else WL, "")
     chk.ob("O14.4", "the loop has no other exit (while True, no return)", isinstance(WL.test, ast.Constant) and WL.test.value is True and not any(isinstance(x, ast.Return) for x in ast.walk(WL)), WL, "")
     ot = [n for n in walk_body(pds) if isinstance(n, ast.Call) and last_attr(n.func) == "create_file_offset_table"]
-    ok = bool(ot) and WL not in list(source.ancestors(ot[0])) and gp.must_pass(gp.node_of(WL), [gp.node_of(ot[0])], normal_only=True) and u(ot[0].args[0]) == "doc_path" and u(ot[0].args[1]).endswith(".number_of_lines")
+    ok = bool(ot) and WL not in list(source.ancestors(ot[0])) and gp.must_pass(gp.node_of(WL), [gp.node_of(ot[0])], normal_only=True) and len(ot[0].args) == 2 and u(ot[0].args[0]) == docv and u(ot[0].args[1]).endswith(".number_of_lines")
     chk.ob("O14.4", "offset table built after the loop on every normal exit", ok, ot[0] if ot else pds, "")
     # what the loop does otherwise: decompress a valid archive, else download to the right target with the right size
     dcs = [n for n in ast.walk(WL) if isinstance(n, ast.Call) and last_attr(n.func) == "decompress"]
-    ok = bool(dcs) and [u(a) for a in dcs[0].args[:2]] == ["archive_path", "doc_path"]
+    ok = bool(dcs) and [u(a) for a in dcs[0].args[:2]] == [archv, docv]
     if ok:
-        ats = [u(a) for t, pol in guards(dcs[0], stop=WL) if pol for a in atoms_of(t)]
-        ok = "self.is_locally_available(archive_path)" in ats and any(a.startswith("self.has_expected_size(archive_path, ") and "compressed_size_in_bytes" in a and "uncompressed" not in a for a in ats)
+        fs = pat.fact_nodes(dcs[0], stop=WL)
+        szf = [b_ for b_ in (pat.match(f_, f"self.has_expected_size({archv}, E_s)") for f_ in fs) if b_ is not None]
+        ok = any(pat.is_(f_, f"self.is_locally_available({archv})") for f_ in fs) and any("compressed_size_in_bytes" in b_["s"] and "uncompressed" not in b_["s"] for b_ in szf)
     chk.ob("O14.4", "an archive is decompressed only if present with its expected (compressed) size", ok, dcs[0] if dcs else WL, "")
     dws = [n for n in ast.walk(WL) if isinstance(n, ast.Call) and last_attr(n.func) == "download" and "downloader" in u(n.func)]
-    ok = bool(dws) and [u(a) for a in dws[0].args[1:3]] == ["target_path", "expected_size"]
+    # roles: the locals passed as the target path (2nd) and the expected size (3rd argument) of downloader.download
+    ok = bool(dws) and len(dws[0].args) >= 3 and all(isinstance(a, ast.Name) for a in dws[0].args[1:3])
     if ok:
+        tpv, esv = dws[0].args[1].id, dws[0].args[2].id
         pairs = {}
         for n in ast.walk(WL):
-            if isinstance(n, ast.Assign) and u(n.targets[0]) in ("target_path", "expected_size"):
+            if isinstance(n, ast.Assign) and u(n.targets[0]) in (tpv, esv):
                 key = tuple((u(t), pol) for t, pol in guards(n, stop=WL))
                 pairs.setdefault(key, {})[u(n.targets[0])] = u(n.value)
-        good = {("archive_path", True), ("doc_path", False)}
+        good = {(archv, True), (docv, False)}
         seen = set()
         for d in pairs.values():
-            if "target_path" in d and "expected_size" in d:
-                comp = "uncompressed" not in d["expected_size"] and "compressed" in d["expected_size"]
-                seen.add((d["target_path"], comp))
+            if tpv in d and esv in d:
+                comp = "uncompressed" not in d[esv] and "compressed" in d[esv]
+                seen.add((d[tpv], comp))
         ok = seen == good
     chk.ob("O14.4", "download target and expected size are paired (archive <-> compressed size, document <-> uncompressed size)", ok, dws[0] if dws else WL, "")
-    hs = pm.get("has_expected_size")
+    hs = method(ldr, P, "has_expected_size")
     r = [n for n in walk_body(hs) if isinstance(n, ast.Return)]
     hp = params_of(hs)
-    ok = len(r) == 1 and isinstance(r[0].value, ast.BoolOp) and isinstance(r[0].value.op, ast.Or) and {u(v) for v in r[0].value.values} == {f"{hp[2]} is None", f"os.path.getsize({hp[1]}) == {hp[2]}"}
-    chk.ob("O14.4", "has_expected_size: undeclared size or exact match", ok, hs, u(r[0].value) if r else "")
-    ila = pm.get("is_locally_available")
-    ok = any(isinstance(n, ast.Return) and u(n.value) == f"os.path.isfile({params_of(ila)[1]})" for n in walk_body(ila))
+    ok = False
+    detail = u(r[0].value) if r else ""
+    if len(r) == 1 and r[0].value is not None and len(hp) == 3:
+        # evaluated on representative (declared, measured) pairs: true iff undeclared or exactly equal; the measured value is getsize(<file parameter>)
+        rv_ = returned(r[0])
+        detail = u(rv_)
+        meas = compared_with(rv_, hp[2])
+        if meas is not None and same_value(meas, expr(f"os.path.getsize({hp[1]})"), local_defs(hs)):
+            ok, d_ = mismatch_table(rv_, hp[2], u(meas), False)
+            detail += ("" if ok else " — " + d_)
+    chk.ob("O14.4", "has_expected_size: undeclared size or exact match", ok, hs, detail)
+    ila = method(ldr, P, "is_locally_available")
+    params(ila, 2)
+    ilr = [n for n in walk_body(ila) if isinstance(n, ast.Return)]
+    ok = len(ilr) == 1 and ilr[0].value is not None and u(returned(ilr[0])) == f"os.path.isfile({params_of(ila)[1]})"
     chk.ob("O14.4", "is_locally_available: a regular file exists", ok, ila, "")
-    cf = pm.get("create_file_offset_table")
+    cf = method(ldr, P, "create_file_offset_table")
+    params(cf, 3)
     gc = cfg_of(cf)
     cdefs = local_defs(cf)
     lr = [k for k, v in cdefs.items() if isinstance(v, ast.Call) and last_attr(v.func) == "prepare_file_offset_table"]
     ifs = [n for n in walk_body(cf) if isinstance(n, ast.If)]
+    ifs = [n for n in ifs if lr and any(isinstance(x, ast.Name) and x.id == lr[0] for x in ast.walk(n.test))] or ifs
     ok = False
     detail = ""
     if lr and ifs:
+        # role: v = the local holding the (optional) number of lines read; the statement is evaluated on representative (lines read, expected) pairs: None (no rebuild) is never a
+        # mismatch, a count — 0 included — is one iff it differs from the expected number; the path taken for a mismatch (whichever arm / nesting) removes the table, then raises
         v = lr[0]
-        ats = [u(a) for a in atoms_of(ifs[0].test)]
+        en = params_of(cf)[2]
         detail = f"`{u(ifs[0].test)}`"
-        none_ok = f"{v} is not None" in ats
-        truthy = v in ats
-        ok = none_ok and not truthy and f"{v} != {params_of(cf)[2]}" in ats and raises_on_all_paths(gc, gc.edge_targets(gc.node_of(ifs[0]), "true")) \
-            and any(isinstance(x, ast.Call) and last_attr(x.func) == "remove_file_offset_table" for s in ifs[0].body for x in ast.walk(s))
-        if truthy:
-            detail += " tests the optional line count by truthiness: a file with 0 lines skips the comparison"
+        ok, d_, res = mismatch_outcomes(ifs[0], v, en)
+        if res:
+            hit = res[(7, 6)]
+            truthy = hit.kind == "raise" and res[(7, 7)].kind != "raise" and res[(0, 6)].kind != "raise"
+            ok = ok and hit.kind == "raise" and raises_on_all_paths(gc, [gc.node_of(hit.node)]) and any(isinstance(x, ast.Call) and last_attr(x.func) == "remove_file_offset_table" for s in before_in_block(hit.node) for x in ast.walk(s))
+            if truthy:
+                detail += " tests the optional line count by truthiness: a file with 0 lines skips the comparison"
+            elif d_:
+                detail += " — " + d_
+        else:
+            detail += " " + d_
     chk.ob("O14.4", "line-count mismatch (including 0 lines) removes the table and raises", ok, ifs[0] if ifs else cf, detail, key=f"{_L}:DocumentSetPreparator.create_file_offset_table:line-count-check")
-    pb = pm.get("prepare_bundled_document_set")
+    pb = method(ldr, P, "prepare_bundled_document_set")
     gb = cfg_of(pb)
     rt = [n for n in walk_body(pb) if isinstance(n, ast.Return) and source.is_const(n.value, True)]
     otb = [n for n in walk_body(pb) if isinstance(n, ast.Call) and last_attr(n.func) == "create_file_offset_table"]
     ok = bool(rt) and bool(otb) and all(gb.dominated_by_nodes(gb.node_of(r_), [gb.node_of(o) for o in otb]) for r_ in rt)
     if ok:
-        ats = [u(t) for r_ in rt for t, pol in guards(r_) if pol]
-        ok = any("is_locally_available(doc_path)" in a for a in ats) and any("has_expected_size(doc_path" in a for a in ats)
+        bdoc, _, _ = path_roles(pb)
+        ok = all(pat.guarded(r_, f"self.is_locally_available({bdoc})") is not None and pat.guarded(r_, f"self.has_expected_size({bdoc}, E_s)") is not None for r_ in rt)
     chk.ob("O14.4", "bundled: `return True` only for a present, right-sized file, after the offset table was built", ok, rt[0] if rt else pb, "")
 
     # ---- O14.5 format dispatch -------------------------------------------------------------------------------------------------------------------------------
@@ -410,42 +621,81 @@ def run(chk):
         raise AnchorMissing("SUPPORTED_ARCHIVE_FORMATS table")
     exts = [e.value for e in tbl.elts if isinstance(e, ast.Constant)]
     dec = io_.func("decompress")
+    # role: the local holding the archive's extension = the second element of splitext(<archive parameter>) (tuple-unpack position 1, or subscript [1])
+    extv = None
+    for n in walk_body(dec):
+        if isinstance(n, ast.Assign) and len(n.targets) == 1:
+            t_, v_ = n.targets[0], n.value
+            if isinstance(v_, ast.Call) and last_attr(v_.func) == "splitext" and isinstance(t_, ast.Tuple) and len(t_.elts) == 2 and isinstance(t_.elts[1], ast.Name):
+                extv = t_.elts[1].id
+            elif isinstance(v_, ast.Subscript) and isinstance(v_.value, ast.Call) and last_attr(v_.value.func) == "splitext" and source.is_const(v_.slice, 1) and isinstance(t_, ast.Name):
+                extv = t_.id
+    if extv is None:
+        raise AnchorMissing("local receiving the extension from splitext() in io.decompress")
+    extvs = {extv}
+    for _ in range(3):  # plain aliases of that local (single-assignment copies)
+        extvs |= {k for k, v_ in local_defs(dec).items() if isinstance(v_, ast.Name) and v_.id in extvs}
     handled = set()
     for n in walk_body(dec):
         if isinstance(n, ast.If):
-            c = comparison(n.test)
-            if c and u(c[0]) == "extension":
+            c = oriented(n.test, lambda x: u(x) in extvs)
+            if c:
                 if c[1] == "==" and isinstance(c[2], ast.Constant):
                     handled.add(c[2].value)
                 elif c[1] == "in" and isinstance(c[2], (ast.List, ast.Tuple, ast.Set)):
                     handled |= {e.value for e in c[2].elts if isinstance(e, ast.Constant)}
+
+    def dispatch(value):
+        """outcome of decompress() for one concrete extension, by evaluating the if-chain (tests over the extension local only); None if the chain has an unsupported shape."""
+        def atom(n, env):
+            if isinstance(n, (ast.BoolOp, ast.UnaryOp)):
+                return None
+            return bool(ev(n, env))
+
+        def on_stmt(s_, env, b):
+            return "skip" if not isinstance(s_, (ast.If, ast.Return, ast.Raise)) else None
+
+        try:
+            return tables.decide(dec.body, atom, {k: value for k in extvs}, on_stmt=on_stmt)
+        except (tables.Unsupported, UnknownAtom, CannotEval):
+            return None
+
     for e in exts:
-        chk.ob("O14.5", f"extension {e} has a branch in decompress()", e in handled, dec, "", key=f"{_I}:decompress:ext:{e}")
+        o = dispatch(e)
+        ok = e in handled if o is None else (o.kind != "raise" and e in handled)
+        chk.ob("O14.5", f"extension {e} has a branch in decompress()", ok, dec, "" if ok or o is None else f"decompress() ends with `{o.text()[:80]}` for this extension", key=f"{_I}:decompress:ext:{e}")
     se = io_.func("splitext")
     special = {c.args[0].value for c in source.calls_in(se, attr="endswith") if c.args and isinstance(c.args[0], ast.Constant)}
     multi = [e for e in exts if e.count(".") > 1]
     for e in multi:
         chk.ob("O14.5", f"multi-dot extension {e} special-cased in splitext()", e in special, se, "", key=f"{_I}:splitext:{e}")
     for n in walk_body(se):
-        if isinstance(n, ast.Return) and isinstance(n.value, ast.Tuple) and guards(n) and guards(n)[-1][1]:
-            t = guards(n)[-1][0]
-            if isinstance(t, ast.Call) and last_attr(t.func) == "endswith":
+        rv_ = returned(n) if isinstance(n, ast.Return) else None
+        if isinstance(rv_, ast.Tuple) and len(rv_.elts) == 2:
+            # the suffix test that holds (positively) at this return, whichever arm it sits in
+            pos = [f_ for f_ in pat.fact_nodes(n) if isinstance(f_, ast.Call) and last_attr(f_.func) == "endswith" and f_.args and source.is_const(f_.args[0]) and isinstance(f_.args[0].value, str)]
+            if len(pos) == 1:
+                t = pos[0]
                 k = len(t.args[0].value)
-                ok = u(n.value.elts[0]).endswith(f"[0:-{k}]") and u(n.value.elts[1]).endswith(f"[-{k}:]")
-                chk.ob("O14.5", f"splitext cuts {t.args[0].value} at its own length", ok, n, u(n.value))
-    gdec = cfg_of(dec)
-    last = dec.body[-1]
-    while isinstance(last, ast.If) and last.orelse:
-        if len(last.orelse) == 1 and isinstance(last.orelse[0], ast.If):
-            last = last.orelse[0]
-        else:
-            break
-    ok = isinstance(last, ast.If) and last.orelse and isinstance(last.orelse[-1], ast.Raise)
+                ok = u(rv_.elts[0]).endswith((f"[0:-{k}]", f"[:-{k}]")) and u(rv_.elts[1]).endswith(f"[-{k}:]")
+                chk.ob("O14.5", f"splitext cuts {t.args[0].value} at its own length", ok, n, u(rv_))
+    # evaluated: extensions outside the table (and the empty one) end in a raise; falls back to the shape of the chain when it cannot be evaluated
+    outs = [dispatch(x) for x in (".unsupported", "", ".tar.xz")]
+    if all(o is not None for o in outs):
+        ok = all(o.kind == "raise" for o in outs)
+    else:
+        last = dec.body[-1]
+        while isinstance(last, ast.If) and last.orelse:
+            if len(last.orelse) == 1 and isinstance(last.orelse[0], ast.If):
+                last = last.orelse[0]
+            else:
+                break
+        ok = isinstance(last, ast.If) and last.orelse and isinstance(last.orelse[-1], ast.Raise)
     chk.ob("O14.5", "unknown extension raises", bool(ok), dec, "")
     dm = io_.func("_do_decompress_manually")
     gm = cfg_of(dm)
     lib = [gm.node_of(n) for n in walk_body(dm) if isinstance(n, ast.Call) and last_attr(n.func) == "_do_decompress_manually_with_lib"]
-    okret = [gm.node_of(n) for n in walk_body(dm) if isinstance(n, ast.Return) and any(pol and isinstance(t, ast.Call) and last_attr(t.func) == "_do_decompress_manually_external" for t, pol in guards(n))]
+    okret = [gm.node_of(n) for n in walk_body(dm) if isinstance(n, ast.Return) and any(isinstance(t, ast.Call) and last_attr(t.func) == "_do_decompress_manually_external" for t in pat.fact_nodes(n))]
     ok = bool(lib) and gm.must_pass(gm.entry, lib + okret, normal_only=True)
     path = None
     if not ok:
@@ -491,7 +741,33 @@ VARIANTS = [
     V("offset recorded before the increment", "break", _I, "                    line_number += 1\n                    if line_number % 50000 == 0:\n                        file_offset_table.add_offset(line_number, data_file.tell())", "                    if line_number % 50000 == 0:\n                        file_offset_table.add_offset(line_number, data_file.tell())\n                    line_number += 1", "O14.6"),
     V("reader uses <", "break", _I, "            if line_number <= target_line_number:", "            if line_number < target_line_number:", "O14.6"),
     V("writer swaps the fields", "break", _I, "        print(f\"{line_number};{offset}\", file=self.offset_file)", "        print(f\"{offset};{line_number}\", file=self.offset_file)", "O14.6"),
+    V("size check by truthiness (a declared size of 0 is skipped)", "break", _N, "    if expected_size_in_bytes is not None and download_size != expected_size_in_bytes:", "    if expected_size_in_bytes and download_size != expected_size_in_bytes:", "O14.1"),
+    V("size check joined with `or` (an undeclared size is a mismatch)", "break", _N, "    if expected_size_in_bytes is not None and download_size != expected_size_in_bytes:", "    if expected_size_in_bytes is not None or download_size != expected_size_in_bytes:", "O14.1"),
+    V("only short downloads are rejected", "break", _N, "    if expected_size_in_bytes is not None and download_size != expected_size_in_bytes:", "    if expected_size_in_bytes is not None and download_size < expected_size_in_bytes:", "O14.1"),
+    V("last attempt's error is swallowed (re-raise one index early only)", "break", _N, "            if i == HTTP_DOWNLOAD_RETRIES:", "            if i == HTTP_DOWNLOAD_RETRIES - 1:", "O14.2"),
+    V("304 accepted", "break", _N, "        if r.status > 299:", "        if r.status > 299 and r.status != 304:", "O14.2"),
+    V("downloaded size compared with itself", "break", _L, "        actual_size = os.path.getsize(target_path)", "        actual_size = size_in_bytes", "O14.3"),
+    V("has_expected_size by truthiness", "break", _L, "        return expected_size is None or os.path.getsize(file_name) == expected_size", "        return not expected_size or os.path.getsize(file_name) == expected_size", "O14.4"),
+    V("has_expected_size accepts larger files", "break", _L, "        return expected_size is None or os.path.getsize(file_name) == expected_size", "        return expected_size is None or os.path.getsize(file_name) >= expected_size", "O14.4"),
+    V("line count compared without the None guard", "break", _L, "        if lines_read is not None and lines_read != expected_number_of_lines:", "        if lines_read != expected_number_of_lines:", "O14.4"),
+    V("download pair swapped", "break", _L, "                    target_path = archive_path\n                    expected_size = document_set.compressed_size_in_bytes", "                    target_path = archive_path\n                    expected_size = document_set.uncompressed_size_in_bytes", "O14.4"),
+    V("empty-read test changed", "break", _I, "                    if len(line) == 0:\n                        break", "                    if len(line) == 1:\n                        break", "O14.6"),
+    V("reader unpacks the fields in the other order", "break", _I, "            line_number, offset_in_bytes = (int(i) for i in line.strip().split(\";\"))", "            offset_in_bytes, line_number = (int(i) for i in line.strip().split(\";\"))", "O14.6"),
     # preserving
+    V("size check with inverted arms (rename in the true arm)", "keep", _N,
+      "    if expected_size_in_bytes is not None and download_size != expected_size_in_bytes:\n        if os.path.isfile(tmp_data_set_path):\n            os.remove(tmp_data_set_path)\n        raise exceptions.DataError(\n            \"Download of [%s] is corrupt. Downloaded [%d] bytes but [%d] bytes are expected. Please retry.\"\n            % (local_path, download_size, expected_size_in_bytes)\n        )\n    os.rename(tmp_data_set_path, local_path)",
+      "    if expected_size_in_bytes is None or expected_size_in_bytes == download_size:\n        os.rename(tmp_data_set_path, local_path)\n    else:\n        if os.path.isfile(tmp_data_set_path):\n            os.remove(tmp_data_set_path)\n        raise exceptions.DataError(\n            \"Download of [%s] is corrupt. Downloaded [%d] bytes but [%d] bytes are expected. Please retry.\"\n            % (local_path, download_size, expected_size_in_bytes)\n        )"),
+    V("size check as nested ifs, locals renamed", "keep", _N,
+      "    download_size = os.path.getsize(tmp_data_set_path)\n    if expected_size_in_bytes is not None and download_size != expected_size_in_bytes:\n        if os.path.isfile(tmp_data_set_path):\n            os.remove(tmp_data_set_path)\n        raise exceptions.DataError(\n            \"Download of [%s] is corrupt. Downloaded [%d] bytes but [%d] bytes are expected. Please retry.\"\n            % (local_path, download_size, expected_size_in_bytes)\n        )",
+      "    got = os.path.getsize(tmp_data_set_path)\n    if expected_size_in_bytes is not None:\n        if expected_size_in_bytes != got:\n            if os.path.isfile(tmp_data_set_path):\n                os.remove(tmp_data_set_path)\n            raise exceptions.DataError(\n                \"Download of [%s] is corrupt. Downloaded [%d] bytes but [%d] bytes are expected. Please retry.\"\n                % (local_path, got, expected_size_in_bytes)\n            )"),
+    V("last-index test flipped, logging first", "keep", _N, "            if i == HTTP_DOWNLOAD_RETRIES:", "            logger.debug(\"attempt %d failed\", i)\n            if HTTP_DOWNLOAD_RETRIES <= i:"),
+    V("status test inverted", "keep", _N, "        if r.status > 299:", "        if not r.status < 300:"),
+    V("line-count test flipped", "keep", _L, "        if lines_read is not None and lines_read != expected_number_of_lines:", "        if expected_number_of_lines != lines_read and lines_read is not None:"),
+    V("has_expected_size flipped", "keep", _L, "        return expected_size is None or os.path.getsize(file_name) == expected_size", "        return expected_size == os.path.getsize(file_name) or expected_size is None"),
+    V("loop exit as nested ifs", "keep", _L, "            if self.is_locally_available(doc_path) and self.has_expected_size(doc_path, document_set.uncompressed_size_in_bytes):\n                break",
+      "            if self.is_locally_available(doc_path):\n                if self.has_expected_size(doc_path, document_set.uncompressed_size_in_bytes):\n                    break"),
+    V("extension constant on the left", "keep", _I, "    if extension == \".zip\":", "    if \".zip\" == extension:"),
+    V("extension via subscript, renamed", "keep", _I, "    _, extension = splitext(zip_name)\n    if extension == \".zip\":", "    ext = splitext(zip_name)[1]\n    extension = ext\n    if ext == \".zip\":"),
     V("os.replace", "keep", _N, "    os.rename(tmp_data_set_path, local_path)", "    os.replace(tmp_data_set_path, local_path)"),
     V(">= 300", "keep", _N, "        if r.status > 299:", "        if r.status >= 300:"),
     V("not line", "keep", _I, "                    if len(line) == 0:\n                        break\n                    line_number += 1", "                    if not line:\n                        break\n                    line_number += 1"),
